@@ -141,3 +141,30 @@ package baseoutput
 //@   loop 1: invariant[sent-so-far-is-below-the-rest] nsent(channel) == 0 || (forall k int :: rangeindex < k && k < len(chunks) ==> srank(lastChunkID) <= srank(chunks[k].ID))
 //@   loop 1: step[ids-sent-strictly-increase] (nsent(channel) == prev(nsent(channel)) && lastChunkID === prev(lastChunkID))
 //@        || (nsent(channel) == prev(nsent(channel)) + 1 && lastChunkID === chunks[rangeindex].ID && (prev(nsent(channel)) == 0 || srank(lastChunkID) > srank(prev(lastChunkID))))
+
+// ---- the worker (C02: "handed back for persistence when the client stops"): after the last session every chunk taken from
+// the final leftover queue goes to the leftover callback, and the finished callback comes only after that hand-back loop
+// has run (ghost runphase, set when the loop is reached)
+//@ ghost var runphase int
+//@ fieldspec ClientWorker.onChunkLeft(chunk base.LogChunk)
+//@   modifies nothing
+//@ fieldspec ClientWorker.onFinished()
+//@   requires[finished-only-after-the-leftovers-were-handed-back] runphase == 2
+//@   modifies nothing
+//@ func (client *ClientWorker) runSession(leftovers chan base.LogChunk) (chan base.LogChunk, reconnectPolicy)
+//@   flag contract
+//@   modifies everything
+//@   preserves baseoutput.ClientWorker.onChunkLeft, baseoutput.ClientWorker.onFinished, baseoutput.ClientWorker.stopped, baseoutput.ClientWorker.logger, baseoutput.ClientWorker.inputClosed, baseoutput.ClientWorker.metrics, runphase
+//@   ensures result.0 != nil
+//@   ensures result.1 == "noReconnect" || result.1 == "reconnectWithDelay" || result.1 == "reconnect"
+//@ func (client *ClientWorker) run$1()
+//@   flag inline
+//@   loop 1: invariant client != nil && client.logger != nil && client.onChunkLeft != nil && client.onFinished != nil && client.stopped != nil && client.inputClosed != nil && metricsok(&client.metrics) && runphase == 0
+//@ func (client *ClientWorker) run()
+//@   property C02 C19
+//@   requires client != nil && client.logger != nil && client.onChunkLeft != nil && client.onFinished != nil && client.stopped != nil && client.inputClosed != nil && metricsok(&client.metrics)
+//@   define   runphase == 0
+//@   modifies everything
+//@   loop 1: ghostset runphase := 2
+//@   loop 1: invariant client != nil && client.onChunkLeft != nil && client.onFinished != nil && client.stopped != nil && metricsok(&client.metrics) && client.logger != nil
+//@   loop 1: step[every-leftover-taken-is-handed-back] ncalls(client.onChunkLeft) == prev(ncalls(client.onChunkLeft)) + 1 && nrecv(leftovers) == prev(nrecv(leftovers)) + 1
